@@ -525,6 +525,8 @@ type recStore struct {
 	initial *store.PersistedData
 	saves   []*store.PersistedData
 	inner   store.DataStore // optional real store
+	// failNext: the next Save fails (a full disk, a revoked mount): nothing reaches the store, the caller gets the error
+	failNext bool
 }
 
 func (s *recStore) Load() (*store.PersistedData, error) {
@@ -536,6 +538,11 @@ func (s *recStore) Load() (*store.PersistedData, error) {
 
 func (s *recStore) Save(data *store.PersistedData) error {
 	vsched.Point("store.save")
+	if s.failNext {
+		s.failNext = false
+		s.w.log(Event{Kind: EvSave, Detail: "FAILED (injected I/O error)"})
+		return errors.New("injected I/O error: the store could not be written")
+	}
 	cp := &store.PersistedData{Jobs: append([]store.PersistedJob(nil), data.Jobs...)}
 	s.saves = append(s.saves, cp)
 	s.w.log(Event{Kind: EvSave, Detail: fmt.Sprintf("jobs=%d", len(data.Jobs))})
